@@ -232,6 +232,64 @@ def rule_memo_sound(ctx: Ctx, rels: List[str]) -> None:
                         problems.append(f"the stored value is (computed from) {extra}, mutable state of the object that is not part of the key "
                                         f"`{short(kexpr, 40)}`: once that state is changed through another path (a gate applied to the held representation) "
                                         f"the remembered value no longer describes the object")
+                # R4' invalidation: the function reads other fields of self; every method that changes one of them must reset the cache
+                if cname.startswith("self.") and isinstance(cls, ast.ClassDef):
+                    cattr = cname.split(".", 1)[1]
+                    read_fields = set()
+                    for x in ast.walk(fn):
+                        if isinstance(x, ast.Attribute) and norm(x.value) == "self" and isinstance(x.ctx, ast.Load) and x.attr != cattr:
+                            par = parent(x)
+                            if isinstance(par, ast.Call) and par.func is x:
+                                continue  # self.method(...)
+                            read_fields.add(x.attr)
+                    methods = {st.name: st for st in cls.body if isinstance(st, ast.FunctionDef)}
+                    MUT = ("add_", "remove_", "clear", "update", "append", "pop", "insert", "extend", "discard", "setdefault", "relabel")
+
+                    def mutates(f: ast.FunctionDef, field: str) -> bool:
+                        for x in ast.walk(f):
+                            if isinstance(x, (ast.Assign, ast.AugAssign, ast.Delete)):
+                                tg = x.targets if not isinstance(x, ast.AugAssign) else [x.target]
+                                for t in tg:
+                                    b = t
+                                    while isinstance(b, (ast.Subscript, ast.Attribute)) and not (isinstance(b, ast.Attribute) and norm(b.value) == "self"):
+                                        b = b.value
+                                    if isinstance(b, ast.Attribute) and norm(b.value) == "self" and b.attr == field and f.name != "__init__":
+                                        return True
+                            if isinstance(x, ast.Call) and isinstance(x.func, ast.Attribute) and x.func.attr.startswith(MUT):
+                                b = x.func.value
+                                while isinstance(b, (ast.Subscript, ast.Call)):
+                                    b = b.value if isinstance(b, ast.Subscript) else b.func
+                                    if isinstance(b, ast.Attribute) and norm(b.value) != "self":
+                                        b = b.value
+                                if isinstance(b, ast.Attribute) and norm(b.value) == "self" and b.attr == field:
+                                    return True
+                        return False
+
+                    def resets(f: ast.FunctionDef, seen=None) -> bool:
+                        seen = seen or set()
+                        if f.name in seen:
+                            return False
+                        seen.add(f.name)
+                        for x in ast.walk(f):
+                            if isinstance(x, ast.Assign) and any(isinstance(t, ast.Attribute) and norm(t.value) == "self" and t.attr == cattr for t in x.targets):
+                                return True
+                            if isinstance(x, ast.Call) and isinstance(x.func, ast.Attribute) and x.func.attr in ("clear", "pop") and norm(x.func.value) == cname:
+                                return True
+                            if isinstance(x, ast.Call) and isinstance(x.func, ast.Attribute) and norm(x.func.value) == "self" and x.func.attr in methods \
+                                    and resets(methods[x.func.attr], seen):
+                                return True
+                        return False
+                    stale = []
+                    for fld in sorted(read_fields):
+                        for mn, mf in methods.items():
+                            if mf is fn or mn == "__init__":
+                                continue
+                            if mutates(mf, fld) and not resets(mf):
+                                stale.append(f"{mn} (changes self.{fld})")
+                    if stale:
+                        problems.append(f"the cached result is computed from self.{{{', '.join(sorted(read_fields))}}}, but {', '.join(stale[:4])} "
+                                        f"{'do' if len(stale) > 1 else 'does'} not reset `{cname}`: after such an edit the depth remembered for the old "
+                                        f"structure is returned")
                 if problems:
                     ctx.fail("memo.sound", m, stores[0][0],
                              f"{q} answers from the cache `{cname}`: " + "; ".join(problems), func=q,
